@@ -344,12 +344,33 @@ def run(ctx):
             return 'CWD'
         return '?'
 
+    _memo = []
+
+    def _wrapper_body(e):
+        """call of a package function that consists of `return <expr>`: (expr, memoising decorator or None)"""
+        if not (isinstance(e, ast.Call) and not e.args and not e.keywords):
+            return None
+        for t in cg.resolve(e.func, bc):
+            if t[0] == 'func' and t[1] in repo.functions:
+                f_ = repo.functions[t[1]]
+                body = [s_ for s_ in f_.body if not (isinstance(s_, ast.Expr) and isinstance(s_.value, ast.Constant))]
+                if len(body) == 1 and isinstance(body[0], ast.Return) and body[0].value is not None:
+                    memo = next((ast.unparse(d_) for d_ in f_.decorator_list if any(isinstance(x, (ast.Name, ast.Attribute)) and
+                                 (dotted(x) or '').split('.')[-1] in ('lru_cache', 'cache', 'cached_property', 'memoize') for x in ast.walk(d_))), None)
+                    return body[0].value, memo
+        return None
+
     def _sym(e, depth=0):
         """the search path as a sequence over {CWD, JUP (the jupyter config directories), ?}"""
         if isinstance(e, ast.Call) and last_attr(e) == 'jupyter_config_path':
             return ['JUP']
         if isinstance(e, ast.Call) and dotted(e.func) == 'list' and len(e.args) == 1:
             return _sym(e.args[0], depth)
+        w = _wrapper_body(e)
+        if w is not None and depth < 3:
+            if w[1]:
+                _memo.append((e, w[1]))
+            return _sym(w[0], depth + 1)
         if isinstance(e, (ast.List, ast.Tuple)):
             out = []
             for x in e.elts:
@@ -386,6 +407,8 @@ def run(ctx):
             return True
         if isinstance(e, ast.Call) and dotted(e.func) == 'list':
             return True
+        if _wrapper_body(e) is not None and depth < 3:
+            return _is_list_expr(_wrapper_body(e)[0], depth + 1)
         if isinstance(e, ast.BinOp) and isinstance(e.op, ast.Add):
             return _is_list_expr(e.left, depth) and _is_list_expr(e.right, depth)
         if isinstance(e, ast.Name) and depth < 3:
@@ -398,6 +421,14 @@ def run(ctx):
         ctx.inst('R19.3', CFGM + ':build_config', 'search path expression %s' % ast.unparse(parg)[:60], False,
                  'the search path is not a list: _load_config_files wraps a non-list into [path], so the whole tuple goes to ONE loader, which reads only the first directory '
                  'that has nbdime_config.json -- lower-priority files are ignored instead of layered underneath', lcf[0])
+    if _memo and isinstance(parg, ast.Name):
+        muts = [c_ for c_ in calls_in(bc, nested=False) if isinstance(c_.func, ast.Attribute) and dotted(c_.func.value) == parg.id and
+                c_.func.attr in ('insert', 'append', 'extend', 'reverse', 'sort', 'remove', 'pop', 'clear')]
+        if muts:
+            ctx.inst('R19.3', CFGM + ':build_config', 'search path from a memoised helper (%s)' % _memo[0][1], False,
+                     '`%s` modifies the list object the memoised helper hands out: the helper returns the SAME list on every call, so every working directory a '
+                     'configuration was ever resolved from stays on the search path for the rest of the process (a config file of a former cwd keeps supplying values)'
+                     % repo.norm(muts[0]), muts[0])
     if 'JUP' not in seq:
         raise AnalysisError('build_config: jupyter_config_path() is no longer the search path')
     if '?' in seq:
